@@ -8,7 +8,7 @@ BlMatch.tla    the statement (Blocked) against a transcription of BlockList.Exis
 BlPersist.tla  Set/Remove/SetBatch/RemoveBatch = MutateAndSnapshot ; persist steps, with
                crash points: TLC exhaustive; every edge of the 2-writer state graphs and
                simulated 3-writer schedules are forced on the real goroutines through the
-               persist gate hook; recorded executions are validated by Trace_Persist.tla.
+               persist gate hook; recorded executions are validated by Trace_BlPersist.tla.
 Stress         free-running concurrent API traffic (real HTTP API when it can listen),
                end state must satisfy Converged.
 """
@@ -110,7 +110,8 @@ def matcher(ctx, thorough):
     if thorough:
         ctx.tlc("Blocklist", "BlMatch.tla", "MC_Match_D2.cfg", workers=8, timeout=2400, heap="12g")
         ctx.tlc("Blocklist", "BlMatch.tla", "MC_Match_D3S1.cfg", workers=8, timeout=2400, heap="12g")
-        ctx.tlc("Blocklist", "BlMatch.tla", "MC_Match_D3L2.cfg", workers=8, timeout=3000, heap="16g")
+        ctx.tlc("Blocklist", "BlMatch.tla", "MC_Match_D3L2.cfg", workers=8, timeout=3000, heap="12g")
+        ctx.tlc("Blocklist", "BlMatch.tla", "MC_Match_D3L2w.cfg", workers=8, timeout=3000, heap="12g")
     # ---- the case table: whole state graph of the small configuration
     r, nodes, edges, inits = ctx.tlc_graph("Blocklist", "BlMatch.tla", "MC_Match_D2S1.cfg",
                                            timeout=900, workers=4, heap="6g")
@@ -169,7 +170,7 @@ def persist_schedules(ctx, model, scheds, tag):
     trace = os.path.join(ctx.scratch, "persist_%s_%s.ndjson" % (model, tag))
     inp = {"entries": PERSIST_ENTRIES, "wl": PERSIST_WL, "initMem": pm["init"], "prog": pm["prog"],
            "shape": SHAPES[0], "universe": qnames(["a", "b", "c"], 3), "schedules": scheds,
-           "traceOut": trace, "strictDir": False}
+           "traceOut": trace, "strictDir": False, "model": model}
     res = ctx.go_driver("./c18", "TestPersistSchedules", inp, name="persist_%s_%s" % (model, tag), timeout=1500)
     ctx.take_driver_result(res, "[BlPersist %s %s] " % (model, tag))
     if res.get("skipped"):
@@ -186,15 +187,17 @@ def persist_schedules(ctx, model, scheds, tag):
         raise vf.MachineryError("persist schedule replay was vacuous: %s" % c)
     # code -> spec
     nlines = sum(1 for _ in open(trace))
-    ok, r = ctx.tlc_trace("Blocklist", "Trace_Persist.tla", "Trace_Persist_%s.cfg" % model, trace, timeout=1500)
+    ok, r = ctx.tlc_trace("Blocklist", "Trace_BlPersist.tla", "Trace_BlPersist_%s.cfg" % model, trace, timeout=1500)
     info["trace_lines"] = nlines
     info["trace_matched"] = max(0, r.depth - 1)
     m = re.search(r'"C18DRIFT", (\d+)', r.out)
     if r.violated and r.violated in PROPERTY_INVARIANTS:
         lines = open(trace).read().splitlines()[: r.depth + 1]
-        ctx.violation("persist/trace/" + r.violated,
+        ctx.violation("persist/%s/trace/%s" % (model, r.violated),
                       "[BlPersist %s] invariant %s is false on a recorded execution of BlockList "
-                      "(trace line %d)" % (model, r.violated, r.depth), {"trace_prefix": lines[-30:]})
+                      "(trace line %d)" % (model, r.violated, r.depth),
+                      {"driver": "persist", "model": model, "schedule": schedule_of_trace(lines), "prog": pm["prog"],
+                       "initMem": pm["init"], "shape": SHAPES[0], "trace_prefix": lines[-40:]})
     elif not ok:
         if res.get("violations"):
             ctx.log("trace rejected after %d of %d lines (driver already reported a violation)" % (r.depth - 1, nlines))
@@ -213,6 +216,21 @@ def persist_schedules(ctx, model, scheds, tag):
         ctx.cov["traces_validated_against_impl"] += len(scheds)
     ctx.cov["replay"]["persist_%s_%s" % (model, tag)] = info
     return info
+
+
+def schedule_of_trace(lines):
+    """The forced schedule behind the last run of a recorded trace prefix (re-executable)."""
+    import json
+    sched = []
+    for ln in lines:
+        e = json.loads(ln)
+        if e["ev"] == "Reset":
+            sched = []
+        elif e["ev"] == "crash":
+            sched.append("Crash")
+        else:
+            sched.append("Step(%d)" % e["p"])
+    return sched
 
 
 def labels_of(path):
@@ -309,7 +327,48 @@ def stress(ctx, thorough):
     ctx.cov["traces_validated_against_impl"] += res["cases"]
 
 
+def do_replay(ctx, path):
+    """bin/check C18 --replay <file>: re-run exactly the recorded case."""
+    import json
+    with open(path) as f:
+        rec = json.load(f)
+    rp = rec.get("replay", {})
+    drv = rp.get("driver")
+    ctx.seed = rec.get("seed", ctx.seed)
+    # the model the case came from is re-checked first (evidence: states/transitions)
+    if drv == "matcher":
+        ctx.tlc("Blocklist", "BlMatch.tla", "MC_Match_D2S1.cfg", workers=4, timeout=900, heap="6g")
+    else:
+        ctx.tlc("Blocklist", "MC_Persist.tla", "MC_Persist_W2.cfg", workers=4, timeout=900, heap="6g")
+    if drv == "matcher":
+        model = rp.get("model") or {}
+        inp = {"shapes": [rp["shape"]], "qnames": qnames(["a", "b", "c"], 3), "nodes": model.get("nodes", {}),
+               "edges": model.get("edges", []), "behaviours": model.get("behaviours", []), "serveEvery": 1}
+        res = ctx.go_driver("./c18", "TestMatcherReplay", inp, name="replay_match", timeout=900)
+        ctx.take_driver_result(res, "[replay matcher] ")
+    elif drv == "persist":
+        model = [k for k, v in PERSIST_MODELS.items() if v["prog"] == rp.get("prog")]
+        inp = {"entries": PERSIST_ENTRIES, "wl": PERSIST_WL, "initMem": rp.get("initMem") or [], "prog": rp["prog"],
+               "shape": rp["shape"], "universe": qnames(["a", "b", "c"], 3), "schedules": [rp["schedule"]],
+               "traceOut": os.path.join(ctx.scratch, "replay.ndjson"), "strictDir": False,
+               "model": model[0] if model else "replay"}
+        res = ctx.go_driver("./c18", "TestPersistSchedules", inp, name="replay_persist", timeout=900)
+        ctx.take_driver_result(res, "[replay persist %s] " % (model[0] if model else "?"))
+    elif drv == "stress":
+        stress(ctx, ctx.tier == "thorough")
+    else:
+        raise vf.MachineryError("replay file has no known driver: %r" % drv)
+    ctx.cov["rule"] = "replay of %s" % path
+    ctx.sample({"replayed": path, "driver": drv})
+    ctx._distinct.update(["replay", path])
+
+
 def run(ctx, replay):
+    if replay:
+        gate = os.path.join(vf.REPO, "middleware", "blocklist", "verif_gate_on.go")
+        if not os.path.exists(gate):
+            raise vf.MachineryError("the persist gate hook is not in %s" % vf.REPO)
+        return do_replay(ctx, replay)
     thorough = ctx.tier == "thorough"
     ctx.cov["rule"] = ("matcher: every state of the TLC graph of BlMatch (D2S1) x every query name x shapes, every "
                        "mutating edge, plus simulated API histories (D3); persistence: every labelled edge of the "
